@@ -71,8 +71,7 @@ CanaryRules == {"ref_ok", "ref_sibling", "ref_ext_sibling", "unresolved", "extra
                 "default_mismatch", "example_mismatch", "in_invalid", "bad_style", "description_missing",
                 "content_missing", "responses_missing", "value_missing", "operation_missing", "url_missing",
                 "default_missing", "dup_param", "examples_mismatch", "value_and_external", "null_member"}
-CanaryVars == {"min", "ref", "external", "bogus", "number", "body", "form", "simple", "absent", "twice", "query_simple", "both", "null"}
-ModeVars == {m.bad : m \in ModeLeaves \cup MapLeaves} \cup {m.ok : m \in ModeLeaves \cup MapLeaves}
+CanaryVars == {"min", "ref", "external", "bogus", "number", "body", "form", "simple", "absent", "twice", "query_simple", "both", "null", "bogus_on_empty"}
 Canary(lf) == (lf.rule \in CanaryRules \cup {"none"}) /\ lf.var \in CanaryVars \cup ModeVars
 (* a leaf whose verdict depends on the mode of the place: the violation where the mode is in viol, the conforming twin elsewhere; *)
 (* tried at media types and headers everywhere, at schemas where they are the schema of a media type / parameter / header / component *)
@@ -82,11 +81,16 @@ ModeLeafOK(p, lf) ==
                              /\ ((lf.var = m.ok) => (mode \notin m.viol))
    /\ (KindAt(p) = "schema" /\ Len(p) > 0) => p[Len(p)].from # "schema"
 
+ExtraVars == UNION {{x.var : x \in ExtraOn(k)} : k \in Kinds}
 (* context-dependent leaves *)
 LeafOK(p, lf) ==
    /\ Lean => (Len(p) <= MinDepthTab[KindAt(p)] \/ Canary(lf))
    /\ (lf.var \in PathOnlyVars) => (Len(p) = 2 /\ p[1].f = "components")
    /\ (lf.var \in ModeVars) => ModeLeafOK(p, lf)
+   (* slicing: the extra field on the empty object is tried at every place (lean: except schema-in-schema ones beyond the shallowest); *)
+   (* on the other conforming variants at the places at most two edges deeper than the shallowest place of the kind          *)
+   /\ (Lean /\ lf.var = "bogus_on_empty" /\ Len(p) > MinDepthTab[KindAt(p)]) => p[Len(p)].from # "schema"
+   /\ (lf.var \in ExtraVars \ {"bogus_on_empty"}) => Len(p) <= MinDepthTab[KindAt(p)] + 2
    /\ (lf.var \in SelfRefVars) => (Len(p) = 2 /\ p[1].f = "components" /\ p[2].f = "schemas" /\ p[2].pos = 1)
    /\ \A i \in DOMAIN p : IsPos2(p[i]) => Len(p) - i < Pos2Tail
    (* a security scheme reference is only meaningful as a component *)
